@@ -991,6 +991,12 @@ func (w *bWorld) apply(c *bCase, st *bStep, exe string) error {
 			return err
 		}
 		w.logEvent("Edit", "kind", "src", "s", st.S, "v", bToken(w.srcPath(st.S)))
+	case "restore":
+		// the file comes back with the contents it had (a stash popped, a branch switched back)
+		if err := w.writeSource(st.S); err != nil {
+			return err
+		}
+		w.logEvent("Edit", "kind", "src", "s", st.S, "v", bToken(w.srcPath(st.S)))
 	case "delete":
 		os.RemoveAll(w.srcPath(st.S))
 		w.logEvent("Edit", "kind", "src", "s", st.S, "v", "")
